@@ -48,6 +48,7 @@ def with_galg(ex, case):
     ex.galg_coord_axioms = bool(case is not None and case.opts.get('coord_axioms'))
     ex.galg_scalar_eq_axioms = bool(case is not None and case.opts.get('scalar_eq_axioms'))
     ex.galg_formal_coeffs = bool(case is not None and case.opts.get('formal_coeffs'))
+    ex.galg_h2c_fork = bool(case is not None and case.opts.get('h2c_fork'))
     if galg.refine_model not in ex.model_refiners:
         ex.model_refiners.append(galg.refine_model)
         ex.model_refiners.append(galg.refine_products)
